@@ -9,7 +9,7 @@ Line-protocol driver for C01 (`FileSet.find`).  Shared ops: see `Driver/Common.l
   contains T | containsp A B  -> ok 0|1
   len                         -> ok N
   single ISFILE C0 C1 START END NFERR   -> ok N | err <class>
-  cal T                       -> year month day doy hour truncYear truncMonth truncDay truncHour
+  cal T                       -> year month day doy hour minute second micro truncYear truncMonth truncDay truncHour
   mk Y M D H|-                -> T | none
 -/
 open FS TM
@@ -58,7 +58,7 @@ def step (s : St) (line : String) : St × String :=
     | _, _, _, _ => (s, "bad-op")
   | ["cal", t] =>
     match t.toNat? with
-    | some t => (s, s!"{yearOf t} {monthOf t} {domOf t} {doyOf t} {hourOf t} {truncTo .year t} {truncTo .month t} {truncTo .day t} {truncTo .hour t}")
+    | some t => (s, s!"{yearOf t} {monthOf t} {domOf t} {doyOf t} {hourOf t} {minuteOf t} {secondOf t} {microOf t} {truncTo .year t} {truncTo .month t} {truncTo .day t} {truncTo .hour t}")
     | none => (s, "bad-op")
   | ["mk", y, m, d, h] =>
     match y.toNat?, m.toNat?, d.toNat?, parseOptNat h with
